@@ -42,7 +42,7 @@ theorem setRecommendedPortState_spec (p p1 : Port) (r : Recommended) (d : Defaul
     (p1.st = .master → p.st = .master ∨ (d.slaveOnly = false ∧ r.isS1 = false)) ∧
     (∀ o ∈ e, o.plain) ∧ (∀ l, pd = some l → ∀ o ∈ l, o.plain) ∧
     (p.st = .faulty → p1.st = .faulty) ∧ (r.isS1 = true → p.cfg.masterOnly = false) ∧
-    (d.slaveOnly = true → p1.st ≠ .master) := by
+    (d.slaveOnly = true → p1.st ≠ .master) ∧ p1.seqs = p.seqs := by
   unfold Port.setRecommendedPortState at h
   split at h
   · cases h
@@ -59,7 +59,7 @@ theorem setRecommendedPortState_spec (p p1 : Port) (r : Recommended) (d : Defaul
       obtain ⟨e1, e2, e3⟩ := h
       subst e1 e2 e3
       exact ⟨rfl, rfl, rfl, rfl, (fun hs => portMove_none_slave p r d hm hs), (by intro hh; exact Or.inl hh),
-        (by intro o ho; cases ho), (by intro l hl; cases hl), (fun hh => hh), hmo', portMove_none_spec p r d hm⟩
+        (by intro o ho; cases ho), (by intro l hl; cases hl), (fun hh => hh), hmo', portMove_none_spec p r d hm, rfl⟩
     | some v =>
       obtain ⟨st, pd'⟩ := v
       rw [hm] at h
@@ -69,7 +69,7 @@ theorem setRecommendedPortState_spec (p p1 : Port) (r : Recommended) (d : Defaul
       obtain ⟨a1, a2, a3, a4⟩ := portMove_spec p r d st pd' hm
       exact ⟨rfl, rfl, rfl, rfl, (by intro hs; exact a1 hs), (by intro hh; exact Or.inr (a2 hh)),
         setState_plain _ _, a3, (by intro hf; exact absurd hf a4), hmo',
-        (by intro hso hmm; have := (a2 hmm).1; rw [hso] at this; cases this)⟩
+        (by intro hso hmm; have := (a2 hmm).1; rw [hso] at this; cases this), rfl⟩
 
 theorem setRecommendedState_spec (p p1 : Port) (r : Recommended) (s s1 : InstState) (e : List Out) (pd : Option (List Out))
     (h : p.setRecommendedState r s = .ok (p1, s1, e, pd)) :
@@ -78,7 +78,7 @@ theorem setRecommendedState_spec (p p1 : Port) (r : Recommended) (s s1 : InstSta
     (p1.st = .master → p.st = .master ∨ (s.dflt.slaveOnly = false ∧ r.isS1 = false)) ∧
     (∀ o ∈ e, o.plain) ∧ (∀ l, pd = some l → ∀ o ∈ l, o.plain) ∧
     (p.st = .faulty → p1.st = .faulty) ∧ (r.isS1 = true → p.cfg.masterOnly = false) ∧
-    (s.dflt.slaveOnly = true → p1.st ≠ .master) := by
+    (s.dflt.slaveOnly = true → p1.st ≠ .master) ∧ p1.seqs = p.seqs := by
   unfold Port.setRecommendedState at h
   simp only [bind, Except.bind] at h
   cases hps : p.setRecommendedPortState r s.dflt with
@@ -87,7 +87,7 @@ theorem setRecommendedState_spec (p p1 : Port) (r : Recommended) (s s1 : InstSta
     obtain ⟨pp, ev, pend⟩ := v
     rw [hps] at h
     simp only at h
-    obtain ⟨b1, b2, b3, b4, b5, b6, b7, b8, b9, b10, b11⟩ := setRecommendedPortState_spec p pp r s.dflt ev pend hps
+    obtain ⟨b1, b2, b3, b4, b5, b6, b7, b8, b9, b10, b11, b12⟩ := setRecommendedPortState_spec p pp r s.dflt ev pend hps
     cases r with
     | m1 dd | m2 dd =>
       simp only at h
@@ -96,12 +96,12 @@ theorem setRecommendedState_spec (p p1 : Port) (r : Recommended) (s s1 : InstSta
       · simp only [Except.ok.injEq, Prod.mk.injEq] at h
         obtain ⟨e1, e2, e3, e4⟩ := h
         subst e1 e2 e3 e4
-        exact ⟨b1, b2, b3, b4, rfl, b5, b6, b7, b8, b9, b10, b11⟩
+        exact ⟨b1, b2, b3, b4, rfl, b5, b6, b7, b8, b9, b10, b11, b12⟩
     | m3 aa | p1 aa | p2 aa =>
       simp only [Except.ok.injEq, Prod.mk.injEq] at h
       obtain ⟨e1, e2, e3, e4⟩ := h
       subst e1 e2 e3 e4
-      exact ⟨b1, b2, b3, b4, rfl, b5, b6, b7, b8, b9, b10, b11⟩
+      exact ⟨b1, b2, b3, b4, rfl, b5, b6, b7, b8, b9, b10, b11, b12⟩
     | s1 a =>
       simp only at h
       cases hap : s.applyParent a with
@@ -111,7 +111,7 @@ theorem setRecommendedState_spec (p p1 : Port) (r : Recommended) (s s1 : InstSta
         simp only [Except.ok.injEq, Prod.mk.injEq] at h
         obtain ⟨e1, e2, e3, e4⟩ := h
         subst e1 e2 e3 e4
-        refine ⟨b1, b2, b3, b4, (applyParent_dflt s s2 a hap).1, b5, b6, ?_, b8, b9, b10, b11⟩
+        refine ⟨b1, b2, b3, b4, (applyParent_dflt s s2 a hap).1, b5, b6, ?_, b8, b9, b10, b11, b12⟩
         intro o ho
         rcases List.mem_append.1 ho with hh | hh
         · exact b7 o hh
@@ -123,11 +123,12 @@ namespace Statime
 
 /-- everything about a port that the BMCA bookkeeping loops leave alone -/
 def SameRole (p p' : Port) : Prop :=
-  p'.id = p.id ∧ p'.cfg = p.cfg ∧ p'.st = p.st ∧ p'.fml.own = p.fml.own
+  p'.id = p.id ∧ p'.cfg = p.cfg ∧ p'.st = p.st ∧ p'.fml.own = p.fml.own ∧ p'.seqs = p.seqs
 
-theorem sameRole_refl (p : Port) : SameRole p p := ⟨rfl, rfl, rfl, rfl⟩
+theorem sameRole_refl (p : Port) : SameRole p p := ⟨rfl, rfl, rfl, rfl, rfl⟩
 theorem sameRole_trans {a b c : Port} (h1 : SameRole a b) (h2 : SameRole b c) : SameRole a c :=
-  ⟨h2.1.trans h1.1, h2.2.1.trans h1.2.1, h2.2.2.1.trans h1.2.2.1, h2.2.2.2.trans h1.2.2.2⟩
+  ⟨h2.1.trans h1.1, h2.2.1.trans h1.2.1, h2.2.2.1.trans h1.2.2.1, h2.2.2.2.1.trans h1.2.2.2.1,
+   h2.2.2.2.2.trans h1.2.2.2.2⟩
 
 theorem portAt_some {ports : List Port} {k : Nat} {p : Port} (h : portAt ports k = some p) :
     1 ≤ k ∧ k - 1 < ports.length ∧ ports[k - 1]? = some p := by
@@ -197,7 +198,7 @@ theorem bmcaTakeBest_spec : ∀ (order : List Nat) (ports : List Port) (acc : Li
           rw [hjj, hkg] at hq; cases hq
           obtain ⟨p', hp', hs⟩ := i2 j _ hg
           exact ⟨p', hp', sameRole_trans (show SameRole p { p with fml := (takeBest p.fml p.cfg.acceptable).1 } from
-            ⟨rfl, rfl, rfl, takeBest_own _ _⟩) hs⟩
+            ⟨rfl, rfl, rfl, takeBest_own _ _, rfl⟩) hs⟩
         · rw [if_neg hj] at hg
           exact i2 j q (by rw [hg]; exact hq)
       · intro k' ob hmem
@@ -247,7 +248,7 @@ def AppliedTo (dflt : DefaultDS) (ebest : Option Best) (lbs : List (Nat × Optio
     ∨ (j + 1 ∉ order ∧ p'.st = p.st)) ∧
   (p'.st = .master → p.st = .master ∨ dflt.slaveOnly = false) ∧
   (j + 1 ∈ order → dflt.slaveOnly = true → p'.st ≠ .master) ∧
-  (j + 1 ∉ order → p'.st = p.st)
+  (j + 1 ∉ order → p'.st = p.st) ∧ p'.seqs = p.seqs
 
 theorem recommend_none_listening (own : DefaultDS) (e er : Option Best) (l : Bool)
     (h : recommend own e er l = none) : l = true := by
@@ -273,7 +274,7 @@ theorem bmcaApply_spec (ebest : Option Best) (lbs : List (Nat × Option Best)) :
     obtain ⟨rfl, rfl, rfl, rfl⟩ := h
     refine ⟨rfl, rfl, ?_, fun h => h, fun h => h⟩
     intro j p hp
-    exact ⟨p, hp, rfl, rfl, rfl, fun _ => Or.inr ⟨(by intro h; cases h), rfl⟩, fun h => Or.inl h, (by intro h; cases h), fun _ => rfl⟩
+    exact ⟨p, hp, rfl, rfl, rfl, fun _ => Or.inr ⟨(by intro h; cases h), rfl⟩, fun h => Or.inl h, (by intro h; cases h), (fun _ => rfl), rfl⟩
   | cons k rest ih =>
     intro hnd ports s ev pend ports' s' ev' pend' h
     have hnd' : rest.Nodup := (List.nodup_cons.1 hnd).2
@@ -282,8 +283,8 @@ theorem bmcaApply_spec (ebest : Option Best) (lbs : List (Nat × Option Best)) :
     -- how a result for `rest` lifts to `k :: rest` for a port other than k
     have lift : ∀ (d : DefaultDS) (j : Nat) (p p' : Port), j + 1 ≠ k → AppliedTo d ebest lbs rest j p p' →
         AppliedTo d ebest lbs (k :: rest) j p p' := by
-      intro d j p p' hjk ⟨b1, b2, b3, b4, b5, b6, b7⟩
-      refine ⟨b1, b2, b3, ?_, b5, ?_, ?_⟩
+      intro d j p p' hjk ⟨b1, b2, b3, b4, b5, b6, b7, b8⟩
+      refine ⟨b1, b2, b3, ?_, b5, ?_, ?_, b8⟩
       · intro hs
         rcases b4 hs with ⟨m1, m2⟩ | ⟨m0, m⟩
         · exact Or.inl ⟨List.mem_cons_of_mem _ m1, m2⟩
@@ -328,12 +329,12 @@ theorem bmcaApply_spec (ebest : Option Best) (lbs : List (Nat × Option Best)) :
           have hpe : p = p0 := by rw [hj, hkg] at hp; cases hp; rfl
           subst hpe
           have hnotin : j + 1 ∉ rest := by rw [hjk]; exact hk_notin
-          obtain ⟨b1, b2, b3, b4, b5, b6, b7⟩ := hap
+          obtain ⟨b1, b2, b3, b4, b5, b6, b7, b8⟩ := hap
           have hsame := b7 hnotin
           have hlis : p.st = .listening := by
             have := recommend_none_listening _ _ _ _ hrec
             simpa using this
-          refine ⟨p', hp', b1, b2, b3, ?_, b5, ?_, ?_⟩
+          refine ⟨p', hp', b1, b2, b3, ?_, b5, ?_, ?_, b8⟩
           · intro hs; rw [hsame, hlis] at hs; cases hs
           · intro _ _ hm; rw [hsame, hlis] at hm; cases hm
           · intro _; exact hsame
@@ -347,7 +348,7 @@ theorem bmcaApply_spec (ebest : Option Best) (lbs : List (Nat × Option Best)) :
           obtain ⟨p1, s1, e1, pd1⟩ := v
           rw [hset] at h
           simp only at h
-          obtain ⟨c1, c2, c3, c4, c5, c6, c7, c8, c9, c10, c11, c12⟩ := setRecommendedState_spec p0 p1 r s s1 e1 pd1 hset
+          obtain ⟨c1, c2, c3, c4, c5, c6, c7, c8, c9, c10, c11, c12, c13⟩ := setRecommendedState_spec p0 p1 r s s1 e1 pd1 hset
           obtain ⟨a1, a2, a3, a4, a5⟩ := ih hnd' (setPort ports k p1) s1 _ _ ports' s' ev' pend' h
           have hlen : (setPort ports k p1).length = ports.length := by simp [setPort]
           refine ⟨a1.trans hlen, a2.trans c5, ?_, ?_, ?_⟩
@@ -359,9 +360,9 @@ theorem bmcaApply_spec (ebest : Option Best) (lbs : List (Nat × Option Best)) :
               subst hpe
               have hnotin : j + 1 ∉ rest := by rw [hjk]; exact hk_notin
               rw [if_pos hjk] at hg
-              obtain ⟨p', hp', b1, b2, b3, b4, b5, b6, b7⟩ := a3 j p1 hg
+              obtain ⟨p', hp', b1, b2, b3, b4, b5, b6, b7, b8⟩ := a3 j p1 hg
               have hsame : p'.st = p1.st := b7 hnotin
-              refine ⟨p', hp', b1.trans c1, b2.trans c2, b3.trans c3, ?_, ?_, ?_, ?_⟩
+              refine ⟨p', hp', b1.trans c1, b2.trans c2, b3.trans c3, ?_, ?_, ?_, ?_, b8.trans c13⟩
               · intro hs
                 obtain ⟨a, ha⟩ := c6 (by rw [← hsame]; exact hs)
                 subst ha
